@@ -18,6 +18,7 @@ import types
 import linecache
 import traceback
 import shutil
+import random as _random
 
 from .chooser import digest
 from .engines import Engine, register
@@ -173,6 +174,7 @@ class SimProc:
         self.defs_mods = {}
         self.opcount = 0
         self.mid_write = False
+        self.rstate = None            # state of the `random` module as this process sees it
 
 
 def _is_owned(name):
@@ -197,6 +199,8 @@ class World:
         self.splits = 0
         self.steps = 0
         self.t0 = 1700000000.0
+        self.same_random_seed = False
+        self.same_pid = False
         self.kill_target = None       # label of the process to kill deterministically (crash-point enumeration)
         self.kill_at = None           # (k, j): die before its k-th seam call; j > 0: call k is a write, j bytes of it reach the file first
         self.oplog = None             # when a list: (label, kind, rel, info) of every seam call
@@ -210,9 +214,12 @@ class World:
             del sys.modules[k]
         sys.modules.update(proc.modules)
         proc.modules = {}
-        self._saved = (sys.dont_write_bytecode, linecache.cache)
+        self._saved = (sys.dont_write_bytecode, linecache.cache, _random.getstate())
         sys.dont_write_bytecode = proc.dont_write_bytecode
         linecache.cache = proc.linecache
+        if proc.rstate is None:
+            proc.rstate = _random.Random(self.random_seed_of(proc)).getstate()
+        _random.setstate(proc.rstate)
         SEAM.current = proc
         self.current = proc
 
@@ -221,7 +228,15 @@ class World:
         SEAM.current = None
         self.current = None
         proc.modules = {k: sys.modules.pop(k) for k in [k for k in sys.modules if _is_owned(k)]}
-        sys.dont_write_bytecode, linecache.cache = self._saved
+        proc.rstate = _random.getstate()
+        sys.dont_write_bytecode, linecache.cache, rs = self._saved
+        _random.setstate(rs)
+
+    def random_seed_of(self, proc):
+        """every simulated process has its own `random` state (the seam for randomness); normally each is
+        seeded differently, as os.urandom would; with same_random_seed all of them start from one state
+        (what random.seed(<constant>) in a conftest does)"""
+        return 777 if self.same_random_seed else 1000 + proc.pid * 31 + len(self.procs)
 
     # ---- called by the seam (in the process thread) --------------------------------------
     def clock_delta(self):
@@ -290,6 +305,8 @@ class World:
     # ---- process bodies ----------------------------------------------------------------
     def spawn(self, label, bytecode):
         p = SimProc(self, len(self.procs), label, bytecode)
+        if self.same_pid:
+            p.pid = 1                 # two containers sharing the directory: both processes are pid 1
         self.procs.append(p)
         return p
 
@@ -825,6 +842,11 @@ class CacheConcEngine(CacheEngineBase):
         ev("defs.py := %s" % (spec,))
         # ---- concurrent phase
         nproc = 2 + ch.weighted("n-procs", [3, 1])
+        if ch.chance("colliding-identities", 1, 8):
+            # pid namespaces (containers sharing the directory) + a seeded random module: whatever the library
+            # derives from pid and random (temporary file names) is the same in every process
+            world.same_pid = world.same_random_seed = True
+            st["fault:same-pid-and-random-seed"] += 1
         world.max_deaths = ch.weighted("max-deaths", [2, 3, 1])
         world.crash_den = [0, 40, 15][ch.weighted("crash-rate", [1, 2, 2])] if world.max_deaths else 0
         procs = [world.spawn("c%d" % i, bytecode=ch.chance("bytecode-on", 1, 2)) for i in range(nproc)]
